@@ -19,6 +19,7 @@ func init() {
 		Assumptions: []string{"a closed Done channel makes the select case ready", "close(ch) by the only sender-side owner"},
 		Run:         runC10,
 		Controls: []Control{
+			{Name: "collection-lossy-wrapper-inverted", File: "pkg/resource/collection.go", Old: "\tch := c.bus.Listen(ctx)\n\tif !config.Backpressure {\n", New: "\tch := c.bus.Listen(ctx)\n\tif config.Backpressure {\n", Expect: "R10.10"},
 			{Name: "send-results-read-the-other-way-round", File: "internal/minibus/bus.go", Old: "\t\tok, active := l.send(ctx, event)\n", New: "\t\tactive, ok := l.send(ctx, event)\n", Expect: "R10.9"},
 			{Name: "alive-flipped", File: "internal/minibus/bus.go", Old: "\treturn l.ctx.Err() == nil\n", New: "\treturn l.ctx.Err() != nil\n", Expect: "R10.9"},
 			{Name: "pullid-subscribes-on-callers-context", File: "pkg/resource/collection.go", Old: "\tctx, cancel := context.WithCancel(ctx)\n\tchanges := c.Pull(ctx, opts...)\n", New: "\tchanges := c.Pull(ctx, opts...)\n\tctx, cancel := context.WithCancel(ctx)\n", Expect: "R10.6"},
@@ -39,6 +40,8 @@ func init() {
 }
 
 func runC10(c *an.Ctx) {
+	r093(c, "R10.10") // the lossy wrapper is installed exactly when backpressure is off (shared with R09.3)
+	c.Min("R10.10", 2)
 	r101(c)
 	r103(c)
 	r104(c)
